@@ -157,18 +157,48 @@ def instantiate(qhyps, ground_formulas, cap=4000, rounds=1, maxdepth=None):
 LEVELS = ((0, 2000), (2, 3000), (4, 6000), (None, None))
 
 
+def propagate_links(qf_hyps, qhyps):
+    """definitional links `atom == definition`: when the definition is literally among the hypotheses
+    (as a whole or conjunct-wise) the atom holds"""
+    ids = set()
+    for h in list(qf_hyps) + list(qhyps):
+        for c in split_conj(h):
+            ids.add(c.get_id())
+
+    def assumed(e):
+        if e.get_id() in ids:
+            return True
+        if z3.is_and(e):
+            return all(assumed(c) for c in e.children())
+        return False
+    extra = []
+    for h in qhyps:
+        if z3.is_eq(h) and h.arg(0).sort() == z3.BoolSort() and z3.is_app(h.arg(0)) and h.arg(0).decl().name().startswith("P_"):
+            if assumed(h.arg(1)):
+                extra.append(h.arg(0))
+    return extra
+
+
 def pointwise_check(qf_hyps, qhyps, goal, axioms=(), timeout_ms=10000, rounds=1):
     """try to prove And(hyps) => goal by skolemisation + pointwise instantiation, escalating the set of
     instance terms (skolem/constants first).  returns 'unsat' (proved) or 'unknown'"""
+    qf_hyps = list(qf_hyps) + propagate_links(qf_hyps, qhyps)
     goals = skolemize_goal(goal)
     for g in goals:
+        # antecedents of the goal are hypotheses (so that their universals get instantiated too)
+        extra = []
+        while z3.is_implies(g):
+            extra.extend(split_conj(g.arg(0)))
+            g = g.arg(1)
         neg = z3.Not(g)
-        base = list(axioms) + list(qf_hyps) + [neg]
+        from .values import has_quant
+        base = list(axioms) + list(qf_hyps) + [e for e in extra if not has_quant(e)] + [neg]
+        qhyps_g = list(qhyps) + [e for e in extra if has_quant(e)]
         done = False
         for maxdepth, tmo in LEVELS:
             s = z3.Solver()
             s.set("timeout", min(timeout_ms, tmo or timeout_ms))
-            insts = instantiate(qhyps, base, rounds=rounds, maxdepth=maxdepth)
+            insts = instantiate(qhyps_g, base, rounds=rounds, maxdepth=maxdepth)
             s.add(*base)
             s.add(*insts)
             if s.check() == z3.unsat:
